@@ -1050,7 +1050,10 @@ func (c *Compiler) compileList(node *ast.List) error {
 func (c *Compiler) compileMap(node *ast.Map) error {
 	items := node.Items()
 	count := len(items)
-	for k, v := range items {
+	// Compile the entries in source order so that side effects of key and
+	// value expressions happen left to right and the bytecode is reproducible
+	for _, k := range node.OrderedKeys() {
+		v := items[k]
 		switch k := k.(type) {
 		case *ast.String:
 			if err := c.compile(k); err != nil {
